@@ -693,12 +693,6 @@ Proof.
 Qed.
 
 (* --- the class of actions *)
-Definition live_act (cf : cfg) (a : action) : bool :=
-  match a with
-  | ARemove _ | ADelReader | ADelPart => false
-  | AWrite _ len _ => (0 <=? len) && (len <=? fsz cf)
-  | _ => true
-  end.
 
 Lemma live_not_remove cf a : live_act cf a = true -> not_remove a = true.
 Proof. destruct a; cbn; auto. Qed.
@@ -1499,7 +1493,6 @@ Proof.
   apply IH. pose proof (Heal_deliver cf s 0 d H) as Hd. rewrite En in Hd. cbn in Hd. apply Hd. reflexivity.
 Qed.
 
-Definition is_delivery (a : action) : bool := match a with ADeliver _ | APump => true | _ => false end.
 
 Lemma Heal_step cf s a : is_delivery a = true -> Heal cf s -> Heal cf (fst (step cf s a)).
 Proof.
@@ -1606,7 +1599,6 @@ Proof.
   destruct Hl as [Ha Ht]. rewrite run_cons. destruct (Sh_step cf s a Hf Hd Ha Hu H) as [H1 H2]. apply IH; assumption.
 Qed.
 
-Definition five_ticks : list action := [ATick; ATick; ATick; ATick; ATick].
 
 Lemma five_ticks_heal cf s : 0 < fsz cf -> depth cf = 0 -> Live true cf s -> ShInv s -> s_last s <= 256 ->
   Heal cf (run cf s five_ticks).
@@ -1726,7 +1718,7 @@ Proof.
           destruct (s_net s0) as [|d t0]; [assumption|]. apply IHf.
           assert (E1 : s_rp (deliver_dgram cf (set_net s0 t0) d) = None) by (apply deliver_dgram_rp_none; exact E0).
           rewrite (poke_rp_none cf _ E1). exact E1. }
-        rewrite (Hn pump_fuel s 0 Ep) in Eq'. discriminate.
+        pose proof (Hn pump_fuel s 0 Ep) as Hnn. destruct (pump pump_fuel cf s 0) as [s1 n]. cbn [fst] in *. congruence.
     - destruct (s_rd s) as [r|]; [destruct (rd_alive r)|]; cbn; exact H.
     - destruct (s_rd s); [exact H|]. destruct (s_rdead s || _) eqn:Eb; [exact H|].
       destruct (rxo_ok cf rel tl); cbn [fst]; [|cbn; exact H].
